@@ -89,38 +89,38 @@ func (zset *ZSet) Add(nms []*ZSetMember, opt ZAddOption) int {
 }
 
 func (zset *ZSet) Range(start int, stop int, opt ZRangeOption) []*ZSetMember {
+	mems := make([]*ZSetMember, len(zset.members))
+	copy(mems, zset.members)
+	if opt.REV {
+		// With REV the ranks count from the highest score.
+		mems = reverseZSetMembers(mems)
+	}
+
 	if start < 0 {
-		start = len(zset.members) + start
+		start = len(mems) + start
 	}
 	if stop < 0 {
-		stop = len(zset.members) + stop
+		stop = len(mems) + stop
 	}
-
-	mems := []*ZSetMember{}
-	for n := start; n <= stop; n++ {
-		if (n < 0) || ((len(zset.members) - 1) < n) {
-			continue
-		}
-		mems = append(mems, zset.members[n])
+	if start < 0 {
+		start = 0
 	}
-
-	offset := opt.Offset
-	if offset < 0 {
-		offset = 0
+	if len(mems) <= stop {
+		stop = len(mems) - 1
 	}
-	count := opt.Count
-	if count < 0 {
-		count = len(mems)
+	if len(mems) == 0 || stop < start {
+		return []*ZSetMember{}
 	}
-
-	if !opt.REV {
-		return mems[offset:count]
-	}
-
-	return reverseZSetMembers(mems[offset:count])
+	return mems[start:(stop + 1)]
 }
 
 func (zset *ZSet) RangeByScore(min float64, max float64, opt ZRangeOption) []*ZSetMember {
+	if opt.REV {
+		// With REV the range is given as max min.
+		min, max = max, min
+		opt.MINEXCLUSIVE, opt.MAXEXCLUSIVE = opt.MAXEXCLUSIVE, opt.MINEXCLUSIVE
+	}
+
 	mems := []*ZSetMember{}
 	for _, mem := range zset.members {
 		if (mem.Score < min && !opt.MINEXCLUSIVE) || (mem.Score <= min && opt.MINEXCLUSIVE) {
@@ -131,21 +131,19 @@ func (zset *ZSet) RangeByScore(min float64, max float64, opt ZRangeOption) []*ZS
 		}
 		mems = append(mems, mem)
 	}
-
-	offset := opt.Offset
-	if offset < 0 {
-		offset = 0
-	}
-	count := opt.Count
-	if count < 0 {
-		count = len(mems)
+	if opt.REV {
+		mems = reverseZSetMembers(mems)
 	}
 
-	if !opt.REV {
-		return mems[offset:count]
+	// LIMIT offset count
+	if opt.Offset < 0 || len(mems) < opt.Offset {
+		return []*ZSetMember{}
 	}
-
-	return reverseZSetMembers(mems[offset:count])
+	mems = mems[opt.Offset:]
+	if 0 <= opt.Count && opt.Count < len(mems) {
+		mems = mems[:opt.Count]
+	}
+	return mems
 }
 
 func (zset *ZSet) Rem(members []string) int {
